@@ -492,7 +492,9 @@ Proof.
   - (* Get *) guard_tac H. destruct (get_key_value_new d key). cbn [fst]. now apply frame_send.
   - (* GetSafe *) guard_tac H. destruct (get_key_value_new d key). cbn [fst]. now apply frame_send.
   - (* Remove *) guard_tac H. destruct (remove_value d key) as [[d' r] msgs] eqn:Hr. cbn [fst].
-    apply frame_sends. eapply frame_put_db; eauto. eapply conn_remove_value'; eauto.
+    assert (H1 : frame n (sends (put_db n dbn d') msgs)).
+    { apply frame_sends. eapply frame_put_db; eauto. eapply conn_remove_value'; eauto. }
+    destruct r; auto; destruct (is_primary _); auto; now apply frame_send_to_primary.
   - (* ReplicateRemove *)
     destruct (get_db n db) as [d|] eqn:Hd; [|exact H].
     destruct (remove_value d key) as [[d' r] msgs] eqn:Hr. cbn [fst].
